@@ -44,6 +44,7 @@ func (c *diskCache) FindMissingCasBlobs(ctx context.Context, blobs []*pb.Digest)
 // proxy back end, the search will immediately terminate and errMissingBlob will be returned. Given that the
 // search is terminated early, the contents of blobs will only have partially been updated.
 func (c *diskCache) findMissingCasBlobsInternal(ctx context.Context, blobs []*pb.Digest, failFast bool) error {
+	defer c.verifReq("FindMissing", "", int64(len(blobs)), nil)()
 	// batchSize moderates how long the cache lock is held by findMissingLocalCAS.
 	const batchSize = 20
 
